@@ -205,6 +205,30 @@ def lowerName (n : Bytes) : Bytes := n.map Ascii.toLower
 
 def normPairs (ps : List Pair) : List Pair := ps.map (fun p => (lowerName p.1, owsTrim p.2))
 
+/-! ### what "every name with its full value" means for a reader (C17's verdict)
+
+The one optional space after the colon is not part of the value (`name: value`); nothing else
+of a value may go — in particular no whitespace at its end. -/
+
+def dropSpace : Bytes → Bytes
+  | 32 :: r => r
+  | v => v
+
+/-- names in their canonical (lower-case) form, values without the one optional leading space -/
+def exactPairs (ps : List Pair) : List Pair := ps.map (fun p => (lowerName p.1, dropSpace p.2))
+
+/-- Lines of a header block for a reader that drops nothing: CRLF ends a line, and bytes after
+the last CRLF (a last line whose CRLF is missing) are one more line. -/
+def looseLines (cur : Bytes) : Bytes → List Bytes
+  | [] => if cur.isEmpty then [] else [cur.reverse]
+  | [x] => [(x :: cur).reverse]
+  | a :: b :: rest =>
+    if a = 13 ∧ b = 10 then cur.reverse :: looseLines [] rest
+    else looseLines (a :: cur) (b :: rest)
+
+/-- every line of the block as a (name, value) pair; `none` if some line has no colon -/
+def readBlockLoose (b : Bytes) : Option (List Pair) := traverse splitColon (looseLines [] b)
+
 /-! ### trailers frames as servers write them (C17's input domain) -/
 
 /-- one trailer line: `name:value CRLF`, or with the customary space, `name: value CRLF` -/
@@ -250,6 +274,14 @@ def expect (method : Bytes) (isH2 : Bool) (ct accept : Option Bytes) : Expect :=
       .web reqText ((accept.bind webContentType) == some true)
     else .status 405
   | none => if isH2 then .pass else .status 400
+
+/-- The value of a single-valued field (`content-type`, `accept`) in a header list: its first
+occurrence. -/
+def fieldOf (name : Bytes) (h : List Pair) : Option Bytes := (TMap.getAll name h).head?
+
+/-- `expect` for a request given by its method, version and whole header list. -/
+def expectFor (method : Bytes) (isH2 : Bool) (h : List Pair) : Expect :=
+  expect method isH2 (fieldOf (str "content-type") h) (fieldOf (str "accept") h)
 
 def grpcContentType : Bytes := str "application/grpc"
 
